@@ -11,7 +11,7 @@ from props import _generic
 MODULE = "NgoVerif.Props.C10"
 LEVEL = ("Lean: factoring a literal set into aux(V) is definitional extension + folding (M3, M3f): stable models one-to-one, aux true exactly where the set holds - under the schema's hypotheses (definition independent of the new atom, persistent, occurrence = defining body under the same binding). The pass's syntactic decisions (binding of the set, connectedness, canonical renaming, variables passed on) are validated on the real code with clingo on the whole source vocabulary, one-to-one.")
 RULE = ('oracle cases = programs harvested from /repo/tests (ast,literal_duplication first) mutations of them and programs of a targeted type-directed generator (harness/tgen.py) under duplication only, 5 instances each (empty, small integer/symbolic domains, dense tiny domains, duplicates) over the input predicates; compared: answer sets on voc(P) one-to-one + costs; non-trivial = the pass changed the program and at least one instance was compared; distinct by program+flags')
-EXTRA = ['reserved(X,X) :- X = 1..N, size(N), open. other(X) :- X = 1..N, size(N), open, x.', 'half(H) :- H = #sum{ 2*P,A : price(A,P), sale(A); 1,B : price(B,Q), sale(B), big(Q) }.', 'a(X) :- b(X), c(Y) : d(X,Y), e(Y). f(X) :- b(X), c(Y) : d(X,Y), e(Y); g.', 'foo(X) :- a(X), b(X), c(X). bar(X) :- a(X), b(X), e(X).']
+EXTRA = [('far(X,Z) :- edge(X,Y), edge(Y,Z), active, not not X != Z. hop(X,Z) :- edge(X,Y), edge(Y,Z), active, not blocked(Y).', ['edge(1,2). edge(2,1). edge(2,3). active.']), 'reserved(X,X) :- X = 1..N, size(N), open. other(X) :- X = 1..N, size(N), open, x.', 'half(H) :- H = #sum{ 2*P,A : price(A,P), sale(A); 1,B : price(B,Q), sale(B), big(Q) }.', 'a(X) :- b(X), c(Y) : d(X,Y), e(Y). f(X) :- b(X), c(Y) : d(X,Y), e(Y); g.', 'foo(X) :- a(X), b(X), c(X). bar(X) :- a(X), b(X), e(X).']
 
 
 def corr(rng, quick):
